@@ -69,6 +69,14 @@ def _replay(item):
 
 
 def _random_trace(seed):
+    try:
+        return _random_trace_(seed)
+    except Exception as e:      # (frappy exceptions do not unpickle in the parent process)
+        import traceback
+        raise MachineryError(f'random trace {seed}: {e!r}\n{traceback.format_exc()[-1500:]}') from None
+
+
+def _random_trace_(seed):
     rnd = random.Random(seed)
     dc.boot()
     shape = dc.rand_shape(rnd)
